@@ -1,37 +1,53 @@
 (* C11, the chain line counter -> diff -> burndown consumer, for one modification of a tracked file. *)
 From Coq Require Import List ZArith Bool Arith Lia.
-From Herc Require Import Plumbing.LineCount Plumbing.LineCountProofs Plumbing.Script Plumbing.ScriptProofs.
+From Herc Require Import Plumbing.LineCount Plumbing.LineCountProofs Plumbing.StripLines Plumbing.Script Plumbing.ScriptProofs.
 Import ListNotations.
 
 (* FileDiff.Consume reports len(src), len(dst) of DiffLinesToRunes on the (possibly stripped) blobs; [ds] is
    whatever the diff engine returned, provided the validator accepts it.  The tracked file has CountLines(old blob)
    lines (handleInsertion created it so, or the previous modification left it so: that is the invariant).
-   Outside the class of finding F9 the consumer accepts and leaves a file of CountLines(new blob) lines. *)
+   The consumer accepts and leaves a file of CountLines(new blob) lines - for every configuration. *)
 Theorem modification_chain : forall {V : Type} (v : V) (ws : bool) (a b : bytes) (ds : script) (file : list V),
   textb a = true -> textb b = true ->
-  (ws = false \/ (last_blank a = false /\ last_blank b = false)) ->
   file_diff_ok ws a b ds = true ->
   count_lines a = Lines (length file) ->
   exists file', handle_modification v (diff_loc ws a) (diff_loc ws b) file ds = HmOk file'
                 /\ count_lines b = Lines (length file') /\ file' = relabel v ds file.
 Proof.
-  intros V v ws a b ds file Ta Tb Hws Hok Hfile.
-  assert (Ha : count_lines a = Lines (diff_loc ws a)) by (apply diff_loc_agrees; tauto).
-  assert (Hb : count_lines b = Lines (diff_loc ws b)) by (apply diff_loc_agrees; tauto).
+  intros V v ws a b ds file Ta Tb Hok Hfile.
   assert (L : length file = length (split_lines (strip ws a))).
-  { rewrite Hfile in Ha. injection Ha as ->. reflexivity. }
+  { rewrite (diff_loc_agrees ws a Ta) in Hfile. now injection Hfile. }
   destruct (consumer_accepts list_eqb v _ _ file ds list_eqb_spec Hok L) as (file' & E & Lf & R).
   exists file'. unfold diff_loc. rewrite E. repeat split; [|exact R].
-  rewrite Hb. unfold diff_loc. now rewrite Lf.
+  rewrite (diff_loc_agrees ws b Tb). unfold diff_loc. now rewrite Lf.
 Qed.
 
-(* With WhitespaceIgnore the chain breaks on the blobs of finding F9: the diff "é\n" -> "é\n" (after stripping)
-   is valid, the file has CountLines = 2 lines, and handleModification answers "internal integrity error src". *)
-Theorem modification_chain_refuted :
+(* BEFORE the repair of F9 the same held only outside the class of the finding ... *)
+Theorem modification_chain_before_fix : forall {V : Type} (v : V) (ws : bool) (a b : bytes) (ds : script) (file : list V),
+  textb a = true -> textb b = true ->
+  (ws = false \/ (last_blank a = false /\ last_blank b = false)) ->
+  file_diff_ok_before_fix ws a b ds = true ->
+  count_lines a = Lines (length file) ->
+  exists file', handle_modification v (diff_loc_before_fix ws a) (diff_loc_before_fix ws b) file ds = HmOk file'
+                /\ count_lines b = Lines (length file') /\ file' = relabel v ds file.
+Proof.
+  intros V v ws a b ds file Ta Tb Hws Hok Hfile.
+  assert (Ha : count_lines a = Lines (diff_loc_before_fix ws a)) by (apply diff_loc_agrees_before_fix; tauto).
+  assert (Hb : count_lines b = Lines (diff_loc_before_fix ws b)) by (apply diff_loc_agrees_before_fix; tauto).
+  assert (L : length file = length (split_lines (strip_before_fix ws a))).
+  { rewrite Hfile in Ha. injection Ha as ->. reflexivity. }
+  destruct (consumer_accepts list_eqb v _ _ file ds list_eqb_spec Hok L) as (file' & E & Lf & R).
+  exists file'. unfold diff_loc_before_fix. rewrite E. repeat split; [|exact R].
+  rewrite Hb. unfold diff_loc_before_fix. now rewrite Lf.
+Qed.
+
+(* ... and broke inside it: the diff "é\n" -> "é\n" (after stripping) is valid, the file has CountLines = 2 lines,
+   and handleModification answered "internal integrity error src". *)
+Theorem modification_chain_refuted_before_fix :
   exists (a b : bytes) (ds : script) (file : list bool),
-    textb a = true /\ textb b = true /\ file_diff_ok true a b ds = true /\
+    textb a = true /\ textb b = true /\ file_diff_ok_before_fix true a b ds = true /\
     count_lines a = Lines (length file) /\
-    handle_modification true (diff_loc true a) (diff_loc true b) file ds = HmErr IntegritySrc.
+    handle_modification true (diff_loc_before_fix true a) (diff_loc_before_fix true b) file ds = HmErr IntegritySrc.
 Proof.
   exists f9_witness, [195; 169; 10]%Z, [(Equal, 1)], [false; false]. vm_compute. repeat split; reflexivity.
 Qed.
@@ -39,20 +55,8 @@ Qed.
 (* ---------------------------------------------------------------- the property-level oracle [spec_ok] *)
 
 Lemma spec_ok_mapped : forall ws a b ds,
-  spec_ok ws a b ds = lines_script_ok (map (strip ws) (split_lines a)) (map (strip ws) (split_lines b)) ds.
-Proof. intros. unfold spec_ok, line_eq, lines_script_ok. apply (script_ok_map list_eqb (strip ws)). Qed.
-
-(* On every pair of blobs outside the class of finding F9, judging the diff against the lines of the stripped blobs
-   (what the implementation feeds into the engine) is the same as judging it against the property. *)
-Theorem spec_ok_file_diff_ok : forall ws a b ds,
-  (ws = false \/ (last_blank a = false /\ last_blank b = false)) ->
-  spec_ok ws a b ds = file_diff_ok ws a b ds.
-Proof.
-  intros ws a b ds H. rewrite spec_ok_mapped. unfold file_diff_ok.
-  destruct ws; cbn [strip].
-  - destruct H as [H|[Ha Hb]]; [discriminate|]. now rewrite !split_lines_strip.
-  - now rewrite !map_id.
-Qed.
+  spec_ok ws a b ds = lines_script_ok (map (unspace ws) (split_lines a)) (map (unspace ws) (split_lines b)) ds.
+Proof. intros. unfold spec_ok, line_eq, lines_script_ok. apply (script_ok_map list_eqb (unspace ws)). Qed.
 
 (* What the property demands, for every configuration: whatever script the implementation reports, if the oracle
    accepts it (with the line totals of the unstripped blobs) then the consumer accepts it, and the file keeps
@@ -66,25 +70,68 @@ Theorem spec_chain : forall {V : Type} (v : V) (ws : bool) (a b : bytes) (ds : s
 Proof.
   intros V v ws a b ds file Ta Tb Hok Hfile.
   rewrite spec_ok_mapped in Hok.
-  assert (L : length file = length (map (strip ws) (split_lines a))).
+  assert (L : length file = length (map (unspace ws) (split_lines a))).
   { rewrite (count_split a Ta) in Hfile. injection Hfile as Hf. rewrite map_length. congruence. }
   destruct (consumer_accepts list_eqb v _ _ file ds list_eqb_spec Hok L) as (file' & E & Lf & R).
   rewrite !map_length in *. exists file'. rewrite E. repeat split; [|exact R].
   rewrite (count_split b Tb). now rewrite Lf.
 Qed.
 
-(* the repaired stripWhitespace (candidate fix of F9) restores the chain for every pair of text blobs *)
-Theorem modification_chain_fixed : forall {V : Type} (v : V) (a b : bytes) (ds : script) (file : list V),
-  textb a = true -> textb b = true ->
-  lines_script_ok (split_lines (strip_whitespace_fixed a)) (split_lines (strip_whitespace_fixed b)) ds = true ->
-  count_lines a = Lines (length file) ->
-  exists file', handle_modification v (length (split_lines (strip_whitespace_fixed a)))
-                  (length (split_lines (strip_whitespace_fixed b))) file ds = HmOk file'
-                /\ count_lines b = Lines (length file').
+(* Before the repair, on every pair of blobs outside the class of F9, judging the diff against the lines of the
+   stripped blobs (what the implementation fed into the engine) was the same as judging it against the property. *)
+Theorem spec_ok_file_diff_ok_before_fix : forall ws a b ds,
+  (ws = false \/ (last_blank a = false /\ last_blank b = false)) ->
+  spec_ok ws a b ds = file_diff_ok_before_fix ws a b ds.
 Proof.
-  intros V v a b ds file Ta Tb Hok Hfile.
-  assert (L : length file = length (split_lines (strip_whitespace_fixed a))).
-  { rewrite (strip_fixed_agrees a Ta) in Hfile. now injection Hfile. }
-  destruct (consumer_accepts list_eqb v _ _ file ds list_eqb_spec Hok L) as (file' & E & Lf & _).
-  exists file'. split; [exact E|]. rewrite (strip_fixed_agrees b Tb). now rewrite Lf.
+  intros ws a b ds H. rewrite spec_ok_mapped. unfold file_diff_ok_before_fix.
+  destruct ws; cbn [strip_before_fix unspace].
+  - destruct H as [H|[Ha Hb]]; [discriminate|]. now rewrite !split_lines_strip.
+  - now rewrite !map_id.
+Qed.
+
+(* ---------------------------------------------------------------- the two oracles coincide *)
+
+Lemma In_skipn : forall {A} n (l : list A) x, In x (skipn n l) -> In x l.
+Proof.
+  induction n as [|n IH]; intros l x H; [exact H|]. destruct l as [|y l]; [exact H|]. right. now apply IH.
+Qed.
+
+(* the validator only ever compares an old line with a new line *)
+Lemma eq_prefix_ext : forall {A} (e1 e2 : A -> A -> bool) n o w,
+  (forall x y, In x o -> In y w -> e1 x y = e2 x y) -> eq_prefix e1 n o w = eq_prefix e2 n o w.
+Proof.
+  induction n as [|n IH]; intros o w H; [reflexivity|].
+  destruct o as [|x o], w as [|y w]; try reflexivity. cbn [eq_prefix].
+  rewrite (H x y) by now left. rewrite (IH o w); [reflexivity|]. intros; apply H; now right.
+Qed.
+
+Lemma walk_ext : forall {A} (e1 e2 : A -> A -> bool) ds p o w,
+  (forall x y, In x o -> In y w -> e1 x y = e2 x y) -> walk e1 p o w ds = walk e2 p o w ds.
+Proof.
+  induction ds as [|[op n] r IH]; intros p o w H; [reflexivity|].
+  cbn [walk]. destruct op.
+  - rewrite (eq_prefix_ext e1 e2 n o w H). rewrite (IH Equal (skipn n o) (skipn n w)); [reflexivity|].
+    intros x y Hx Hy. apply H; eapply In_skipn; eauto.
+  - rewrite (IH Delete (skipn n o) w); [reflexivity|]. intros x y Hx Hy. apply H; [eapply In_skipn; eauto|exact Hy].
+  - rewrite (IH Insert o (skipn n w)); [reflexivity|]. intros x y Hx Hy. apply H; [exact Hx|eapply In_skipn; eauto].
+Qed.
+
+Lemma list_eqb_ext : forall x y x' y', (x = y <-> x' = y') -> list_eqb x y = list_eqb x' y'.
+Proof.
+  intros x y x' y' H. destruct (list_eqb x y) eqn:E1, (list_eqb x' y') eqn:E2; try reflexivity.
+  - apply list_eqb_spec in E1. apply H in E1. apply list_eqb_spec in E1. congruence.
+  - apply list_eqb_spec in E2. apply H in E2. apply list_eqb_spec in E2. congruence.
+Qed.
+
+(* Judging the diff against the lines of the stripped blobs (what FileDiff feeds into the engine) is the same as
+   judging it against the property-level oracle - for every pair of blobs and every configuration. *)
+Theorem spec_ok_file_diff_ok : forall ws a b ds, spec_ok ws a b ds = file_diff_ok ws a b ds.
+Proof.
+  intros ws a b ds. unfold file_diff_ok, spec_ok, lines_script_ok. destruct ws; cbn [strip]; [|reflexivity].
+  rewrite !split_lines_strip_whitespace.
+  rewrite <- (script_ok_map list_eqb strip_whitespace).
+  unfold script_ok. apply walk_ext. intros x y Hx Hy. unfold line_eq. cbn [unspace].
+  pose proof (split_lines_shape a) as Sa. pose proof (split_lines_shape b) as Sb.
+  rewrite Forall_forall in Sa, Sb.
+  apply list_eqb_ext. symmetry. apply strip_line_eq; auto.
 Qed.
